@@ -256,6 +256,25 @@ func propRegistry() map[string]PropSpec {
 	})
 
 	add(PropSpec{
+		ID: "C16",
+		Harnesses: []HarnessSpec{
+			{Pkg: "compress", Fn: "Harness_C16_compress_reset", Init: []string{"util", "compress"}, Reach: []string{"C16.compress.end"}},
+			{Pkg: "server", Fn: "Harness_C16_server_update", Init: initServer, Reach: []string{"C16.server.end"}},
+			{Pkg: "server", Fn: "Harness_C16_servers_reset", Init: initServer, Reach: []string{"C16.servers.end"}, EngineOnly: true},
+			{Pkg: "cache", Fn: "Harness_C16_dispatchers_reset", Init: initCache, Reach: []string{"C16.caches.end"}},
+		},
+		Explanation: "Partial: differential symbolic execution per registry. Compress profiles: for two successive symbolic configurations (profile p and bestCompression each present or not, each level set or unset with any int32 value) the levels of every profile a request can resolve equal those of a registry freshly built from the final configuration. Servers: a server updated in place (every option field symbolic, incl. unset) equals NewServer of the same option through GetCache/GetLocations/GetCompress; the server registry after Reset equals a fresh one and removed servers are closed. Caches: surviving dispatchers are the same objects (entries retained), removed ones gone, new ones present.",
+		Assumptions: []string{
+			"listening sockets, behaviour during an update under traffic, upstream replacement (dials, health-check goroutines) and the file/etcd watcher are outside the claim (OS / network behaviour)",
+			"(*server).Close is a counting stub (elton.GracefulClose / net.Listener are not encodable); goroutines spawned by Reset are run to completion before the comparison",
+			"profiles that the final configuration no longer names are not compared: config validation guarantees no server can resolve them (removed profiles are deliberately kept by pike, pinned by its tests)",
+			"restart-only settings (log format, listener address) are not compared",
+		},
+		Encoded: []string{"compress.(*compressSrvs).Reset", "compress.(*compressSrvs).Get", "compress.NewServices", "compress.(*compressSrv).SetLevels", "compress.(*compressSrv).GetLevel", "server.NewServer", "server.(*server).Update", "server.(*servers).Reset", "server.(*servers).Get", "server.NewServers", "cache.(*dispatchers).Reset", "cache.NewDispatchers", "util.MapDelete"},
+		Bounds:  map[string]string{"history": "two successive configurations (compress), one update (servers, caches)", "levels": "any int32", "min length": "any int"},
+	})
+
+	add(PropSpec{
 		ID: "C17",
 		Harnesses: []HarnessSpec{
 			{Pkg: "config", Fn: "Harness_C17_validate", Init: []string{"util", "config"}, Reach: []string{"C17.accepted", "C17.rejected"}},
